@@ -91,6 +91,12 @@ def build(ns, spec, env, cache=None):
         return pg.Imply(ch[0], ch[1], variable=var)
     if t == "Not":
         return pg.Not(ch[0])
+    if t in ("cAny", "cXor"):
+        cls = ns.cc.Any if t == "cAny" else ns.cc.Xor
+        dflt = spec.get("default")
+        return cls(*ch, default=list(dflt) if dflt else None, variable=var)
+    if t == "SC":
+        return ns.cc.StingyConfigurator(*ch, id=var)
     raise ValueError("unknown spec type %r" % t)
 
 
@@ -148,11 +154,11 @@ def plain_sem(spec, env, vals):
         return int(s * sum(ch) >= v)
     if t == "AtMost":
         return int(sum(ch) <= P(env, spec["value"]))
-    if t == "All":
+    if t in ("All", "SC"):
         return int(all(c >= 1 for c in ch))
-    if t == "Any":
+    if t in ("Any", "cAny"):
         return int(any(c >= 1 for c in ch))
-    if t in ("Xor", "ExactlyOne"):
+    if t in ("Xor", "ExactlyOne", "cXor"):
         return int(sum(ch) == 1)
     if t == "XNor":
         return int(sum(ch) != 1)
